@@ -490,6 +490,7 @@ class DeepCopyMethod(MethodDescriptor):
         if self.__spec_class__.do_not_copy:
             return self
         new = self.__class__.__new__(self.__class__)
+        memo[id(self)] = new  # references back to this instance point at the copy
         for attr, value in self.__dict__.items():
             if attr == "__spec_class_initializing__":
                 # A copy taken while the original is still being constructed
